@@ -881,8 +881,7 @@ def c08_rediscmd_oracle(line, res):
 def c08_rediscmd_oracle1(line, res):
     """independent of the model: (1) the command the server received for every Store: a SET; NX iff the response is an
     error response; a PX, not above the lifetime of the property's table (30 s NXDOMAIN / record-less, 5 s other errors,
-    1 s SERVFAIL, smallest TTL for NOERROR with records, all capped by the configured maximum) and not more than 100 ms
-    below it; (2) lookups, on the server's clock: nothing is served lifetime + 2 s or later after its fetch"""
+    1 s SERVFAIL, smallest TTL for NOERROR with records, all capped by the configured maximum); (2) lookups, on the server's clock: nothing is served lifetime + 2 s or later after its fetch"""
     if res.startswith("HARNESS-ERROR"):
         return None
     f = gens.fields(line)
@@ -914,8 +913,8 @@ def c08_rediscmd_oracle1(line, res):
                         "%d ms" % (i, op["rcode"], verb, L))
             if int(px) > L:
                 return "store #%d (rcode %d): PX %s ms exceeds the lifetime %d ms of the table" % (i, op["rcode"], px, L)
-            if int(px) < L - 100:
-                return "store #%d (rcode %d): PX %s ms, lifetime %d ms" % (i, op["rcode"], px, L)
+            # (no lower bound here: the table of the property only bounds lifetimes from above; an error response with a
+            #  small record TTL legitimately lives shorter.  The exact value is the model comparison's business.)
         if op["k"] == "g" and tok.startswith("H"):
             src = int(tok[1:].split(":")[0])
             if not (0 <= src < i) or ops[src]["k"] not in ("s", "e") or ops[src]["key"] != op["key"]:
@@ -958,9 +957,10 @@ def c08_rediscmd_gen(rng, tier):
     out = []
     n = budget(tier, 56, 600)
     for c in range(n):
-        mem = c % 2
-        maxttl = [0, 0, 2, 40][(c // 2) % 4]
-        j = c // 8 if c < 8 * 24 else rng.randrange(24)
+        # 24 answer classes x 2 configurations first (48 cases: all of them are in the quick tier), then random ones
+        j = c % 24 if c < 96 else rng.randrange(24)
+        mem = (c // 24) % 2
+        maxttl = [0, 2, 40, 0][(c // 48 + j) % 4] if c < 96 else rng.choice([0, 0, 1, 2, 40, 86400])
         if j < 8:
             rc, ttls = 0, RCMD_TTLS[j]
         elif j == 8:
@@ -986,6 +986,62 @@ def c08_rediscmd_classify(line, res):
           "servfail" if op["rcode"] == 2 else "nxdomain" if op["rcode"] == 3 else "other-error"
     return "%s %s max=%s %s" % ("memory+redis" if f["mem"] == "1" else "redis-only", cls, f["maxttl"],
                                 res.split(" ")[0].split("{")[-1].split(":")[0].rstrip("}"))
+
+
+# ---------------- refresherr (round 6): a refresh answered with an error while the positive entry is live, both tiers
+REFRESH_CFGS = [("1", "0", "m"), ("0", "1", "r"), ("1", "1", "mr"), ("1", "1", "r")]
+
+
+def c08_refresh_gen(rng, tier):
+    """a real router (memory-only / redis-only / memory + redis with the entry in both tiers / memory + redis with the entry
+    only in redis) holds a positive answer fetched 7-9 s ago with 1.9 s left (every hit is in the refresh window); the
+    upstream answers every (refresh) query with an error rcode 1..15, with or without records; three client queries at
+    +0.1 .. +0.7 s.  < 1 s per case (+ 1.1 s for the redis ping loop), run in parallel."""
+    out = []
+    for c in range(budget(tier, 20, 240)):
+        mem, red, place = REFRESH_CFGS[c % 4]
+        rc = 1 + (c // 4 * 4 + c % 4 * 5 + c // 16) % 15 if c >= 4 else [2, 3, 5, 2][c]
+        out.append("rf%d mem=%s redis=%s place=%s rcode=%d ettl=%s age=%d remain=1900 qs=100_%d_%d" % (
+            c, mem, red, place, rc, rng.choice(["x", "x", "7", "0_300"]), rng.choice([7000, 7400, 9000]),
+            rng.choice([300, 350, 400]), rng.choice([600, 650, 700])))
+    return out
+
+
+def c08_refresh_oracle(line, res):
+    """every client query arrives while the positive answer is alive (>= 1.2 s before its expireTime): it must be served that
+    positive answer (aged), whatever the refresh running in the background was answered: an error response never displaces
+    a live positive entry"""
+    if not res.startswith("up="):
+        return None
+    f = gens.fields(line)
+    toks = res.split(" ")[1:]
+    ats = [int(x) for x in f["qs"].split("_")]
+    if len(toks) != len(ats):
+        return None
+    age, remain = int(f["age"]), int(f["remain"])
+    for i, (at, tok) in enumerate(zip(ats, toks)):
+        if at + SLACK > remain - 1000:
+            continue
+        rc, ttl_s = tok.split(":") if ":" in tok else (tok, "")
+        if rc != "0":
+            return ("query #%d at +%d ms was answered rcode %s although the positive answer in the cache had %d ms of its "
+                    "%d ms lifetime left: the error response of the refresh (rcode %s) displaced a live positive entry" % (
+                        i, at, rc, remain - at, age + remain, f["rcode"]))
+        got = [int(x) for x in ttl_s.split("_")] if ttl_s else []
+        if len(got) != 2:
+            return "query #%d: served %s, expected the two cached A records" % (i, tok)
+        dmin = max(0, (at + age - SLACK) // 1000)
+        for t0, t1 in zip([60, 300], got):
+            if t1 > max(1, t0 - dmin):
+                return "query #%d: served TTL %d > max 1 (%d - %d whole seconds since the fetch)" % (i, t1, t0, dmin)
+    return None
+
+
+def c08_refresh_classify(line, res):
+    f = gens.fields(line)
+    cfg = {"m": "memory-only", "r": "redis-only" if f["mem"] == "0" else "memory+redis(entry in redis)", "mr": "memory+redis"}[f["place"]]
+    up = res.split(" ")[0]
+    return "%s refreshes=%s" % (cfg, "0" if up == "up=0" else ">=1")
 
 
 # ---------------- routerhist (real router, real upstream over TCP, scripted upstream server)
@@ -1153,6 +1209,8 @@ PROPS["C08"] = dict(
         dict(name="rediscmd", gen=c08_rediscmd_gen, oracle=c08_rediscmd_oracle, classify=c08_rediscmd_classify,
              compare=retrying_compare("rediscmd", c08_rediscmd_oracle1, c08_rediscmd_compare),
              nontrivial=lambda l, r: "{SET" in r, timeout=900),
+        dict(name="refresherr", gen=c08_refresh_gen, oracle=c08_refresh_oracle, classify=c08_refresh_classify, model=False,
+             nontrivial=lambda l, r: r.startswith("up=") and not r.startswith("up=0 "), timeout=900),
         dict(name="redisneg", gen=c08_redisneg_gen, oracle=c08_redisneg_oracle, classify=c08_redisneg_classify,
              compare=retrying_compare("redisneg", c08_redisneg_oracle1),
              nontrivial=lambda l, r: "H" in r, timeout=900),
